@@ -36,6 +36,10 @@ def tables(draw, max_cols=3):
     for i in range(ncols):
         dtype = draw(st.sampled_from(["float64", "float64", "int64"]))
         spec = draw(G.array_spec(rows, dtype, mask_kind=draw(st.sampled_from(["none", "some", "single"])), payload=False))
+        if draw(st.integers(0, 7)) == 0:
+            # a column of large codes next to each other (parcel ids): distinct values that a tolerant comparison conflates
+            codes = [250001, 250002, 250003, 250007]
+            spec["data"] = [draw(st.sampled_from(codes)) if dtype == "int64" else float(draw(st.sampled_from(codes))) for _ in range(rows)]
         missing = None
         if spec["mask"] is not None and any(spec["mask"]):
             missing = draw(st.sampled_from([-9999, 99, -77]))
